@@ -1,10 +1,20 @@
 import json,sys
 pid=sys.argv[1]
+import glob, os
+known=[]
+for d in sorted(glob.glob('/verif/seeded/%s-*' % pid)):
+    try:
+        m=json.load(open(os.path.join(d,'meta.json')))
+        am=m.get('agent_meta') if isinstance(m.get('agent_meta'),dict) else {}
+        known.append(' '.join(str(am.get('summary','')).split())[:300])
+    except Exception:
+        pass
+suffix = sys.argv[2] if len(sys.argv) > 2 else ''
 for l in open('/verif/properties.jsonl'):
     p=json.loads(l)
     if p['id']==pid:
         break
-wt='/tmp/mut-'+pid.lower()
+wt='/tmp/mut-'+pid.lower()+suffix
 print(f'''You are testing how robust a Go project is against subtle regressions. You work ONLY inside the git worktree {wt} (a scratch checkout of the repository knz/shakespeare: a Go CLI that parses a theatre-themed DSL, compiles it into timed scenes, runs shell commands as actors and audits their output with temporal-predicate state machines). Do not read or touch anything under /verif or /repo; do not use the network (there is none). Per shell call: `export GOFLAGS=-mod=mod GOPROXY=off GOSUMDB=off GOTOOLCHAIN=local`. The two git-ignored generated files pkg/cmd needs (pkg/cmd/version.go, pkg/cmd/report_html.go) already exist in your worktree (untracked; leave them). go.mod says go 1.12 (no generics, no 0o literals). Tests: `go test -vet=off -count=1 ./pkg/crdb/...` is the project's reference suite (all of it passes except 3 known always-failing tests: TestDefaultCallResolver, TestFatalStacktraceStderr, TestRedirectStderr); `go test -vet=off -count=1 ./pkg/cmd/` also exists: note which of its tests fail BEFORE your change (several do, on the unchanged tree) — your change must not make any additional test of either suite fail.
 
 The property you are attacking (id {p['id']}): "{p['title']}"
@@ -15,3 +25,8 @@ Code anchors: {json.dumps(p['anchors']['files'])}; mechanisms: {json.dumps(p['an
 Your task: produce THREE different, realistic, small source changes (each independent of the others; think "plausible refactoring slip or well-meant optimisation", 1-15 changed lines each, in the anchored non-test code) that each BREAK this property while the code still compiles and no additional existing test fails. Prefer changes that need something specific to manifest — a particular multi-step sequence of operations, an unusual but legal input, a particular interleaving or timing, a boundary value, or two cooperating sites that each look fine alone — not ones that any ordinary use would expose at once. For each change write a demonstration (a Go test file or small Go program inside the worktree, or a shell script running the built binary `go build -o /tmp/{pid.lower()}-shk . `) that FAILS with the change applied and PASSES on the unchanged tree; keep demonstrations deterministic.
 
 Deliver, under {wt}/MUT/, for i in 1..3: `m<i>.diff` (output of `git diff` for that change alone, relative to the unchanged tree, NOT including the demonstration or the generated files), `m<i>_demo/` (the demonstration files + a `run.sh` that exits 0 when the property holds and non-zero when it is broken, runnable from the worktree root), `m<i>.json` with fields: property, summary (what is changed), needs (what is required for the breakage to manifest), existing_tests (exact commands you ran and that no additional test fails), demo (how to run it). After producing each diff, restore the tree (`git checkout -- .`) and verify the diff applies cleanly with `git apply`. At the end the worktree must contain no source modification apart from the MUT/ directory. Reply with a short summary of the three changes.''')
+if known:
+    print("\nChanges of this kind that are ALREADY KNOWN — produce three that are DIFFERENT in location and mechanism from all of these (do not vary them slightly):")
+    for k in known:
+        print(" - " + k)
+print("\nNever run `git stash` (the stash is shared with the main repository).")
